@@ -1,62 +1,65 @@
 (* Props/C08.v — No cell ever stores a non-finite number.  Statements only.
    The claim covers all built-in functions because it is about the SINK every result goes
-   through (set_cells_with_result = [write]), not about the functions. *)
+   through (set_cells_with_result = [write]), not about the functions.
+   History: the array branches and the 1x1 coercion (F09, F09b) were repaired by /repo e9b497e, the
+   typed path (F08, F08c) by /repo 6e3cec0; the former refutations are the examples at the end.
+   What this file does NOT cover, and what is still violated in the implementation: the public API
+   Model::update_cell_with_number, which stores the f64 it is given (F08b), and the xlsx importer,
+   which stores a non-finite <v> (F08d).  Neither goes through [write] or [type_number]; both are
+   reported by the harness (known classes api_number_unchecked, xlsx_import_nonfinite). *)
 From IronCalc Require Import Base.Prelude Eval.NumOps Eval.Value Eval.Coerce Eval.Ops Eval.Funs
   Eval.Eval Eval.Store Eval.StoreProofs Eval.SinkProofs.
 
-(* full strength: whatever result reaches the sink, and whatever text is typed, a store free
-   of non-finite numbers stays so.  The first conjunct is FALSE of the faithful model (array sinks,
-   refutations below); the second one holds since /repo 6e3cec0 (C08_typed). *)
+(* the property for the two paths a user reaches through formulas and typing: whatever result
+   reaches the sink, and whatever text is typed, a store free of non-finite numbers stays so *)
 Definition C08_statement : Prop :=
   forall num (N : NumOps num), nis_finite N (nzero N) = true ->
   (forall c cell r st st', write N c cell r st = Some st' -> finite_store N st -> finite_store N st') /\
   (forall c t st, finite_store N st -> finite_store N (type_number N c t st)).
 
-(* the scalar branch, for EVERY result that is not an array *)
+(* THE SINK THEOREM: for EVERY result r, scalar or array, in every branch (scalar, dynamic spill,
+   CSE fill, 1x1 coercion).  The one law of the number type: 0 is finite *)
+Theorem C08_sink :
+  forall num (N : NumOps num), nis_finite N (nzero N) = true ->
+  forall c cell r st st', write N c cell r st = Some st' -> finite_store N st -> finite_store N st'.
+Proof. exact (@write_finite). Qed.
+Print Assumptions C08_sink.
+
+(* the typed path, for every text *)
+Theorem C08_typed :
+  forall num (N : NumOps num) c t st, finite_store N st -> finite_store N (type_number N c t st).
+Proof. exact (@type_number_finite). Qed.
+Print Assumptions C08_typed.
+
+(* hence the statement *)
+Theorem C08_holds : C08_statement.
+Proof. exact (fun num N H0 => conj (@write_finite num N H0) (@type_number_finite num N)). Qed.
+Print Assumptions C08_holds.
+
+(* the scalar branch alone (the original safety belt) *)
 Theorem C08_scalar :
   forall num (N : NumOps num), nis_finite N (nzero N) = true ->
   forall c cell r st st', ~ is_array r -> write N c cell r st = Some st' -> finite_store N st -> finite_store N st'.
 Proof. exact (@write_scalar_branch_finite). Qed.
 Print Assumptions C08_scalar.
 
-(* every branch, excluding exactly the array results that contain a non-finite element *)
-Theorem C08_partial :
-  forall num (N : NumOps num), nis_finite N (nzero N) = true ->
-  forall c cell r st st', result_finite N r -> write N c cell r st = Some st' -> finite_store N st -> finite_store N st'.
-Proof. exact (@write_finite_partial). Qed.
-Print Assumptions C08_partial.
-
-(* the typed path, full strength (since /repo 6e3cec0: parse_number rejects non-finite values; before
-   that this was C08_typed_partial and C08_refuted_typed, finding F08) *)
-Theorem C08_typed :
-  forall num (N : NumOps num) c t st, finite_store N st -> finite_store N (type_number N c t st).
-Proof. exact (@type_number_finite). Qed.
-Print Assumptions C08_typed.
-
-(* F09: ={MAX,1}*10 as a dynamic array formula stores a non-finite number in the anchor *)
-Theorem C08_refuted_array :
-  no_nonfinite_b BOps [A1; mkref 0 1 2] (store_of wb_array) = true /\
-  no_nonfinite_b BOps [A1; mkref 0 1 2] (evaluate BOps [A1] wb_array) = false.
-Proof. exact refuted_array_dynamic. Qed.
-Print Assumptions C08_refuted_array.
-Theorem C08_refuted_array_cse :
-  no_nonfinite_b BOps [A1; mkref 0 1 2] (store_of wb_cse) = true /\
-  no_nonfinite_b BOps [A1; mkref 0 1 2] (evaluate BOps [A1] wb_cse) = false.
-Proof. exact refuted_array_cse. Qed.
-Print Assumptions C08_refuted_array_cse.
-(* F09b: a plain formula cell whose result is a 1x1 array (reached by =SQRTPI({1E308})) *)
-Theorem C08_refuted_coerce_1x1 :
-  no_nonfinite_b BOps [A1] (store_of wb_1x1) = true /\
-  no_nonfinite_b BOps [A1] (evaluate BOps [A1] wb_1x1) = false.
-Proof. exact refuted_coerce_1x1. Qed.
-Print Assumptions C08_refuted_coerce_1x1.
-(* F08 (fixed): typing a number whose value overflows stores the text, a finite one the number *)
+(* the former refutations, now examples (bounded toy numbers, overflow = non-finite):
+   ={MAX,1}*10 as a dynamic formula and as a CSE formula, the 1x1 coercion, the scalar form, typing *)
+Example C08_array_dynamic_guarded :
+  no_nonfinite_b BOps [A1; mkref 0 1 2] (evaluate BOps [A1] wb_array) = true /\
+  value_at (evaluate BOps [A1] wb_array) A1 = VErr ENUM /\ value_at (evaluate BOps [A1] wb_array) (mkref 0 1 2) = VNum (Some 10).
+Proof. exact guarded_array_dynamic. Qed.
+Example C08_array_cse_guarded :
+  no_nonfinite_b BOps [A1; mkref 0 1 2] (evaluate BOps [A1] wb_cse) = true /\
+  value_at (evaluate BOps [A1] wb_cse) A1 = VErr ENUM /\ value_at (evaluate BOps [A1] wb_cse) (mkref 0 1 2) = VNum (Some 10).
+Proof. exact guarded_array_cse. Qed.
+Example C08_coerce_1x1_guarded :
+  no_nonfinite_b BOps [A1] (evaluate BOps [A1] wb_1x1) = true /\ value_at (evaluate BOps [A1] wb_1x1) A1 = VErr ENUM.
+Proof. exact guarded_coerce_1x1. Qed.
+Example C08_scalar_guard_works : value_at (evaluate BOps [A1] wb_scalar) A1 = VErr ENUM.
+Proof. exact scalar_guard_example. Qed.
 Example C08_typed_overflow_is_text :
   cont (type_number BOps A1 [57;57;57;57;57;57;57] (store_of [])) A1 = CString [57;57;57;57;57;57;57] /\
   no_nonfinite_b BOps [A1] (type_number BOps A1 [57;57;57;57;57;57;57] (store_of [])) = true /\
   cont (type_number BOps A1 [57;57] (store_of [])) A1 = CNumber (Some 99).
 Proof. exact typed_overflow_is_text. Qed.
-
-(* non-vacuity: the same overflow in scalar form is caught by the safety belt *)
-Example C08_scalar_guard_works : value_at (evaluate BOps [A1] wb_scalar) A1 = VErr ENUM.
-Proof. exact scalar_guard_example. Qed.
